@@ -365,6 +365,10 @@ def run(ctx):
     ncli = ctx.share(s['cli'])
     for i in range(n):
         case = curves_corpus.make_case(rng, i)
+        if i % 4 == 2:
+            case, ok = curves_corpus.with_flat_interstorm(case, rng)
+            if ok:
+                ctx.rec.hit('datasets-with-a-flat-stretch-between-two-drizzles')
         curves_corpus.run_dataset(ctx, PROPERTY, case, 'cli' if i < ncli else 'function', i, nontrivial=nontrivial, session=(i % 3 == 0),
                                   with_reference=(i % 3 == 1))
     rng = ctx.rng('units')
